@@ -5,7 +5,7 @@ import z3
 from pyvc import ty as T
 from pyvc import heap as H
 from pyvc.engine import Fact, Step
-from pyvc.registry import ANY, CLASSES, Contract, Loop, declare_ref, lemma, scan, assumption, observation, body_frame
+from pyvc.registry import ANY, CLASSES, Contract, Loop, declare_ref, lemma, scan, assumption, observation, body_frame, frame_arrays_any
 from contracts import shapes as S_
 from contracts.c_utils import ETy, OptET, us, t_time, t_unit, mk
 from contracts.c_events import EL, q_list, is_heap, mem, ev_time, ev_type, ev_task, et, lst_mod, EVENT, same_members
@@ -462,6 +462,8 @@ def _hf_mod(c):
         out[c.pre.fld_arr(TASK, f)[0]] = ANY
     for f in ("_finished_tasks", "_finished_task_graphs", "_missed_task_deadlines", "_missed_task_graph_deadlines"):
         out[c.pre.fld_arr(SIM, f)[0]] = [s]
+    # taking the task off its pool writes the ledgers of that pool and its workers (WorkerPool.remove_task#body)
+    out.update(frame_arrays_any("workers.workers.WorkerPool.remove_task#body")(c))
     # notifying the task's graph may add empty entries to its parent map (a defaultdict)
     g = c.pre.d_val(TGMap, c.pre.rd(c.pre.rd(s, SIM, "_workload")[1], WORKLOAD, "_task_graphs")[1], c.pre.rd(task, TASK, "_task_graph")[1])
     for p_ in ("len", "keys", "idx", "dom", "val"):
@@ -840,7 +842,7 @@ Contract(
     entry_facts=lambda c: [closed_queue(c)],
     allocates=True,
     note="verified against the body. Exception paths are not constrained: AssertionError (a placed decision), RuntimeError (Placement.task of a non-task placement), ValueError (unknown task graph; the cached pending placement is not queued; the task with a pending placement is not SCHEDULED; Event() of a task without a cancellation / release time), AttributeError. The cascade itself is TaskGraph.cancel (abstract contract, body verified as TaskGraph.cancel#body)",
-    props=("C16", "C06", "C05"),
+    props=("C16", "C06", "C05", "C12"),
 )
 
 
@@ -1018,6 +1020,8 @@ def _he_mod(c):
     for p_ in ("len", "keys", "idx", "dom", "val"):
         out[c.pre.carr(FutureMap, p_)[0]] = ANY
         out[c.pre.carr(Adj, p_)[0]] = ANY
+    # ... and, through WorkerPool.place_task / remove_task, the ledgers of pools and workers
+    out.update(frame_arrays_any("workers.workers.WorkerPool.remove_task#body", "workers.workers.WorkerPool.place_task#body")(c))
     return out
 
 
@@ -1199,6 +1203,8 @@ def _hpre_mod(c):
     out[c.pre.carr(pl, "elem")[0]] = [lst]
     for f in ("preemption_time", "old_worker_pool", "restart_time", "new_worker_pool"):
         out[c.pre.fld_arr("workload.tasks.Task.Preemption", f)[0]] = []
+    # taking the task off its pool writes the ledgers of that pool and its workers (WorkerPool.remove_task#body)
+    out.update(frame_arrays_any("workers.workers.WorkerPool.remove_task#body")(c))
     return out
 
 
